@@ -2,17 +2,19 @@
 PROPS["C06"] = dict(
     props_file="Properties/C06.v",
     harnesses=[
-        dict(cmd="blobfn", mod="root", model="Model.BlobFn", quick=800, thorough=50000, shard=200,
+        dict(cmd="blobfn", mod="root", model="Model.BlobFn", quick=800, thorough=30000, shard=800,
              require=["fn.add", "fn.add.good", "fn.add.merge", "fn.super", "fn.writer", "fn.writer.pieces", "fn.parse.ok",
                       "fn.parse.err", "fn.walk.ok", "fn.walk.unaligned"]),
-        dict(cmd="blob", mod="root", model="Model.BlobRead", quick=160, thorough=10000, shard=40,
+        dict(cmd="blob", mod="root", model="Model.BlobRead", quick=144, thorough=8000, shard=72, race=400,
              require=["op.read", "op.cache", "op.evict", "op.check", "op.refresh", "op.expire", "cache.mem", "cache.dir",
                       "result.read.ok", "result.read.err", "read.across_eof", "read.from_cache_only", "mode.single",
                       "served.multi", "served.mpalways", "served.perm", "served.first", "served.squash", "served.whole",
                       "served.extra", "served.dupextra", "served.dup", "served.over", "served.trunc", "served.broken",
                       "served.unaligned", "served.short", "served.403", "served.stale403", "served.400", "served.500",
                       "served.redir.ok", "served.redir.fail",
-                      "conc.cases", "conc.reads_ok", "conc.overlapping_requests", "conc.cache_misses_injected"]),
+                      "conc.cases", "conc.reads_ok", "conc.overlapping_requests", "conc.cache_misses_injected",
+                      "cache.fanout", "cache.fanout.interleaved", "read.parked_in_cache_hit", "fetcher.handler", "fetcher.http",
+                      "served.handler.default", "served.handler.trunc", "opt.direct", "opt.pass", "opt.both"]),
     ],
     rule="blobfn: random and boundary inputs of regionSet.add (sets built by successive adds + arbitrary slices), superRegion, "
          "bytesWriter.Write (a chunk delivered in arbitrary pieces, one or two passes), parseRange (well-formed, overflowing, "
@@ -20,6 +22,11 @@ PROPS["C06"] = dict(
          "blob: random histories of ReadAt/Cache/Evict/Check/Refresh/URL-expiry on blobs of 0..45 bytes (0, 1, k*cs, k*cs+-1), chunk size 1..8, "
          "several prefetch chunk sizes, memory or directory cache, against a scripted registry (23 personalities); every history ends with a "
          "read of the whole blob; non-trivial = at least one data fetch and one successful non-empty read; distinct = distinct Coq case term. "
+         "Cache() with prefetchChunkSize > chunkSize fans out into up to 4 pieces that are run, through scheduling points in cacheAt, in a random "
+         "interleaving of their sub-steps (cache walk / fetchRange) and compared with the model run on the same interleaving. "
+         "One history in six uses a scripted remote.Handler instead of HTTP; a quarter of the reads/prefetches pass cache options Direct/PassThrough. "
+         "With the directory cache (2-entry LRUs) reads are re-issued parked between cache.Get (a hit) and the copy while following prefetches "
+         "commit other chunks (eviction + buffer reuse), then resumed: the byte-exactness oracle covers 'which chunks are cached ... with eviction'. "
          "One case in eight is concurrent (oracle only, the Coq term is its sequential prefix): 2-7 goroutines reading/prefetching the same hot "
          "ranges at once (shared single-flight fetches), a registry drawing its personality at random per request, 0-60% of cache lookups "
          "answered 'miss' (entry lost between fetch and copy), URL expiry in mid-flight, a monitor sampling FetchedSize, a closing whole-blob read",
@@ -35,8 +42,8 @@ PROPS["C06"] = dict(
     level_text="Coq theorems over the hand-written model of fs/remote (blob.go, util.go, reply analysis of resolver.go): regionSet.add keeps the set "
                "sorted/disjoint/non-adjacent and covers exactly old + new; totalSize = number of distinct covered bytes; bytesWriter is independent of "
                "how a chunk is cut into Write pieces; ReadAt returns exactly blob[o, min(o+n,size)) or an error for every history, cache content, "
-               "reply script and, in rely/guarantee form, every interleaving with other readers/prefetchers (incl. shared single-flight fetch and "
-               "cache loss); FetchedSize = number of distinct committed bytes, <= size, monotone. The model is run against the real code every run.",
+               "reply script (HTTP fetcher or remote.Handler), every interleaving of the pieces of a fanned-out Cache(), and, in rely/guarantee form, every "
+               "interleaving with other readers/prefetchers (incl. shared single-flight fetch and cache loss); FetchedSize = number of distinct committed bytes, <= size, monotone. The model is run against the real code every run.",
     level_note="Model is hand-written; concurrency is covered as: every cache lookup and every single-flight role of one reader is an adversarial input "
                "(rely), and every commit a reader makes is honest (guarantee). net/http, mime/multipart, singleflight are modelled by contract.",
     technique="Coq proof: invariants by induction over histories / chunk walks; correspondence by vm_compute on observed cases",
